@@ -160,6 +160,14 @@ func (m *miniInterp) evalE(x ast.Expr, env *menv) (mval, error) {
 			}
 			return mval{n: 0}, nil
 		}
+		// int64(x) of an int32/int64 value keeps the order (and the value)
+		if tv, ok := info.Types[t.Fun]; ok && tv.IsType() && len(t.Args) == 1 {
+			if bt, ok := tv.Type.Underlying().(*types.Basic); ok && bt.Kind() == types.Int64 {
+				if at, ok := info.TypeOf(t.Args[0]).Underlying().(*types.Basic); ok && (at.Kind() == types.Int32 || at.Kind() == types.Int64) {
+					return m.evalE(t.Args[0], env)
+				}
+			}
+		}
 		obj := core.CalleeObj(info, t)
 		if f, ok := obj.(*types.Func); ok && f.Pkg() == m.pkg.Types {
 			out, err := m.call(f.Name(), t.Args, env)
@@ -417,6 +425,122 @@ func (m *miniInterp) execList(list []ast.Stmt, env *menv) (bool, outcome, error)
 	return false, outcome{}, nil
 }
 
+// isWidening: a conversion int64(x) of an int32 or int64 value (keeps value and order).
+func isWidening(info *types.Info, c *ast.CallExpr) bool {
+	tv, ok := info.Types[c.Fun]
+	if !ok || !tv.IsType() || len(c.Args) != 1 {
+		return false
+	}
+	bt, ok := tv.Type.Underlying().(*types.Basic)
+	if !ok || bt.Kind() != types.Int64 {
+		return false
+	}
+	at, ok := info.TypeOf(c.Args[0]).Underlying().(*types.Basic)
+	return ok && (at.Kind() == types.Int32 || at.Kind() == types.Int64)
+}
+
+func stripWidening(info *types.Info, x ast.Expr) ast.Expr {
+	for {
+		x = ast.Unparen(x)
+		if c, ok := x.(*ast.CallExpr); ok && isWidening(info, c) {
+			x = c.Args[0]
+			continue
+		}
+		return x
+	}
+}
+
+// orderOnly: every parameter of the function is an integer, and every use of a parameter in its body is a direct
+// operand of a comparison (or of cmp.Compare) with another parameter (or, where allowed, the constant 0): its result
+// depends on nothing but the mutual order of its arguments.
+func orderOnly(pkg *packages.Package, fd *ast.FuncDecl, allowZeroConst bool) bool {
+	info := pkg.TypesInfo
+	params := map[types.Object]bool{}
+	for _, f := range fd.Type.Params.List {
+		for _, n := range f.Names {
+			o := info.Defs[n]
+			bt, ok := o.Type().Underlying().(*types.Basic)
+			if !ok || bt.Info()&types.IsInteger == 0 {
+				return false
+			}
+			params[o] = true
+		}
+	}
+	if len(params) < 2 || fd.Body == nil {
+		return false
+	}
+	parents := map[ast.Node]ast.Node{}
+	var stack []ast.Node
+	ast.Inspect(fd.Body, func(n ast.Node) bool {
+		if n == nil {
+			stack = stack[:len(stack)-1]
+			return true
+		}
+		if len(stack) > 0 {
+			parents[n] = stack[len(stack)-1]
+		}
+		stack = append(stack, n)
+		return true
+	})
+	good := true
+	isParam := func(x ast.Expr) bool {
+		id, ok := ast.Unparen(x).(*ast.Ident)
+		return ok && params[info.Uses[id]]
+	}
+	ast.Inspect(fd.Body, func(n ast.Node) bool {
+		switch t := n.(type) {
+		case *ast.FuncLit, *ast.GoStmt, *ast.DeferStmt:
+			good = false
+		case *ast.AssignStmt, *ast.IncDecStmt:
+			good = false // no locals, no writes: nothing but comparisons and returns
+		case *ast.CallExpr:
+			if !isIntCmpCompare(info, t) {
+				good = false
+			}
+		case *ast.Ident:
+			if !params[info.Uses[t]] {
+				return true
+			}
+			q := parents[t]
+			for {
+				if pe, ok := q.(*ast.ParenExpr); ok {
+					q = parents[pe]
+					continue
+				}
+				break
+			}
+			switch pq := q.(type) {
+			case *ast.BinaryExpr:
+				if !isCmp(pq.Op) {
+					good = false
+					break
+				}
+				other := pq.X
+				if ast.Unparen(pq.X) == ast.Expr(t) {
+					other = pq.Y
+				}
+				if isParam(other) {
+					break
+				}
+				if tv, ok := info.Types[ast.Unparen(other)]; ok && tv.Value != nil && allowZeroConst {
+					if v, ok := constant.Int64Val(constant.ToInt(tv.Value)); ok && v == 0 {
+						break
+					}
+				}
+				good = false
+			case *ast.CallExpr:
+				if !isIntCmpCompare(info, pq) || !isParam(pq.Args[0]) || !isParam(pq.Args[1]) {
+					good = false
+				}
+			default:
+				good = false
+			}
+		}
+		return good
+	})
+	return good
+}
+
 // onlyCompared verifies the soundness side-condition of the finite abstraction:
 // every use of a field of the given parameters is a direct operand of a
 // comparison whose other operand is the same field of another parameter or a
@@ -465,15 +589,50 @@ func onlyCompared(pkg *packages.Package, fd *ast.FuncDecl, fns map[string]*ast.F
 		}
 		switch pp := p.(type) {
 		case *ast.SelectorExpr:
-			// field use: parent must be comparison
+			// field use: parent must be comparison (possibly through an order-preserving conversion to int64)
 			q := parents[pp]
+			var self ast.Expr = pp
 			for {
 				if pe, ok := q.(*ast.ParenExpr); ok {
+					self = pe
 					q = parents[pe]
+					continue
+				}
+				if ce, ok := q.(*ast.CallExpr); ok && isWidening(info, ce) {
+					self = ce
+					q = parents[ce]
 					continue
 				}
 				break
 			}
+			// h(a.F, b.F) where h is a function of the package over integers whose result depends on nothing but the
+			// mutual order of its arguments: the same abstraction applies one level down
+			if call, isCall := q.(*ast.CallExpr); isCall && !isIntCmpCompare(info, call) {
+				if f, ok := core.CalleeObj(info, call).(*types.Func); ok && f.Pkg() == pkg.Types && fns[f.Name()] != nil && orderOnly(pkg, fns[f.Name()], allowZeroConst) {
+					okArgs := len(call.Args) >= 2
+					seenParam := map[types.Object]bool{}
+					for _, a := range call.Args {
+						a = stripWidening(info, a)
+						os, ok := a.(*ast.SelectorExpr)
+						if !ok || os.Sel.Name != pp.Sel.Name {
+							okArgs = false
+							break
+						}
+						oid, ok := ast.Unparen(os.X).(*ast.Ident)
+						if !ok || !params[info.Uses[oid]] || seenParam[info.Uses[oid]] {
+							okArgs = false
+							break
+						}
+						seenParam[info.Uses[oid]] = true
+					}
+					if okArgs {
+						return true
+					}
+					err = und("%s: field %s is handed to %s together with something other than the same field of the other parameters", fd.Name.Name, types.ExprString(pp), f.Name())
+					return false
+				}
+			}
+			_ = self
 			// cmp.Compare(a.F, b.F) on integers is a three-way comparison of the two fields
 			if call, isCall := q.(*ast.CallExpr); isCall && isIntCmpCompare(info, call) {
 				other := call.Args[0]
@@ -494,10 +653,10 @@ func onlyCompared(pkg *packages.Package, fd *ast.FuncDecl, fns map[string]*ast.F
 				return false
 			}
 			other := be.X
-			if ast.Unparen(be.X) == ast.Expr(pp) {
+			if stripWidening(info, be.X) == ast.Expr(pp) {
 				other = be.Y
 			}
-			other = ast.Unparen(other)
+			other = stripWidening(info, other)
 			if tv, ok := info.Types[other]; ok && tv.Value != nil {
 				if allowZeroConst {
 					if v, ok := constant.Int64Val(constant.ToInt(tv.Value)); ok && v == 0 {
